@@ -12,13 +12,26 @@ CLAIMS = [
         "level_note": "Trusted: LALRPOP parsers accept only at end of stream; logos turns every input byte into a token, a skip or an "
                       "Err item. Text inside an unterminated `/-` comment counts as comment (lexer definition).",
     },
+    {
+        "id": "C16",
+        "technique": "static analysis: hash-order taint over typed HIR with function/parameter summaries + ambient-source and cast inventories",
+        "level_text": "Every iteration over a RandomState-hashed container in the workspace (std/im HashMap/HashSet, DashMap; decided from "
+                      "resolved types) is followed to its consumer; a path to an ordered sink (push, format, emit, id allocation, "
+                      "early exit, choice of an element) is reported with function, source and sink unless an in-place sort intervenes or "
+                      "the exact (function, source, sink) key is in the audited exemption table. Also decided: no pointer-to-integer "
+                      "cast exists, no clock/random/pid/thread/env source is called from the check/run/fmt/build crates outside an "
+                      "allow-list, no {:?} of a hash container. This is the whole structural content of the property.",
+        "level_note": "Assumes sort keys are total, third-party crates do not leak hash order, and the 4 audited exemptions "
+                      "(rules/order_exempt.json, each with its reason and re-checked side conditions) are right. OS-level nondeterminism "
+                      "(ASLR) is excluded by the address rule.",
+    },
 ]
 
 _PENDING = "check not built yet in this round (static rule designed in DESIGN.md, implementation pending)"
 NOT_APPLICABLE = [
     {"property_id": "C20", "reason": "behavioural equation through a 2800-line type-directed translation; no clause is both visible in the shape of elaborate/monadic/* and a necessary condition of the equation (DESIGN.md C20)"},
 ] + [{"property_id": p, "reason": _PENDING} for p in
-     ["C01", "C02", "C03", "C04", "C05", "C06", "C07", "C08", "C09", "C10", "C12", "C13", "C14", "C15", "C16", "C17", "C18", "C19"]]
+     ["C01", "C02", "C03", "C04", "C05", "C06", "C07", "C08", "C09", "C10", "C12", "C13", "C14", "C15", "C17", "C18", "C19"]]
 
 NOTES = ("Static analysis only: every verdict is computed from /repo's current working tree by the zyq rustc driver "
          "(facts) and repository-specific rules; nothing executes zydeco. Exit 2 (no VIOLATION line) means the tree could not "
